@@ -112,7 +112,7 @@ def run_workers(prop, mod, a, seed, scratch, workdir, native):
         nsan = 1 if a.replay else max(1, min(jobs // 2, getattr(mod, "MAX_SAN_WORKERS", 8)))
     stride = getattr(mod, "SAN_STRIDE", {"quick": 4, "thorough": 4}).get(a.tier, 4)
     wd_timeout = getattr(mod, "WATCHDOG", {"quick": 600, "thorough": 7200})[a.tier]
-    case_timeout = getattr(mod, "CASE_TIMEOUT", 120)
+    case_timeout = int(os.environ.get("VERIF_CASE_TIMEOUT") or getattr(mod, "CASE_TIMEOUT", 120))
     os.makedirs(os.path.join(workdir, "san"), exist_ok=True)
     supp = os.path.join(VERIF, "vlib", "ubsan.supp")
     for kind, n in (("plain", nplain), ("san", nsan)):
@@ -329,10 +329,13 @@ def decide(prop, mod, a, seed, procs, binfo, t0, workdir, native):
     req = getattr(mod, "REQUIRED", {})
     req = req.get(a.tier, req) if req and isinstance(next(iter(req.values())), dict) else req
     rounds = getattr(mod, "THOROUGH_ROUNDS", 1) if a.tier == "thorough" else 1
+    margin = None
     if not a.replay:
         for m, n in req.items():
             n = n * rounds
             have = counts.get(m, {}).get("ok", 0) + counts.get(m, {}).get("violation", 0)
+            if margin is None or have / float(n) < margin:
+                margin, margin_mon = have / float(n), m
             if have < n:
                 inconclusive.append("monitor %s evaluated %d < %d times" % (m, have, n))
         for f, c in fam_counts.items():
@@ -417,8 +420,9 @@ def decide(prop, mod, a, seed, procs, binfo, t0, workdir, native):
             ev["coverage"]["samples"] = ["(no sample recorded)"]
         with open(os.path.join(VERIF, "evidence", prop + ".json"), "w") as f:
             json.dump(ev, f, indent=1, default=str)
-    print("%s %s tier=%s seed=%d: %s; evaluations=%d distinct=%d cases=%r san_reports=%d wall=%.1fs" % (
-        prop, "replay" if a.replay else "check", a.tier, seed, status, evaluations, distinct, ran, len(san_reports), wall))
+    print("%s %s tier=%s seed=%d: %s; evaluations=%d distinct=%d cases=%r san_reports=%d wall=%.1fs%s" % (
+        prop, "replay" if a.replay else "check", a.tier, seed, status, evaluations, distinct, ran, len(san_reports), wall,
+        "" if margin is None else " required-counts-margin=%.2f(%s)" % (margin, margin_mon)))
     if new:
         return 1
     if inconclusive:
